@@ -322,7 +322,9 @@ class MemoryLogger(object):
                 if frame[1] not in skip_filenames:
                     break
             self._failed_validations.append(
-                "{}: {}".format(e, "".join(traceback.format_stack(frame[0])))
+                "{}: {}".format(
+                    safeunicode(e), "".join(traceback.format_stack(frame[0]))
+                )
             )
         self.messages.append(dictionary)
         self.serializers.append(serializer)
